@@ -42,6 +42,7 @@ class Sim:
         self.pkts = {}
         self.on_packet = None
         self.escrow = {}
+        self.kex_used = {}
         self.observers = []
 
     # -- trace ---------------------------------------------------------------------
